@@ -384,8 +384,7 @@ Compared(r) == CASE r.down.kind \in {"det", "dyn"} -> "exact"
 VecDefined(v) ==
   /\ \A i, j \in 1 .. Len(v.rules) : SameLook(v, i, j) => Compared(v.rules[i]) = Compared(v.rules[j])
   /\ v.trace.hb \in 0 .. HK - 1
-  /\
-  \A i \in 1 .. Len(v.rules) :
+  /\ \A i \in 1 .. Len(v.rules) :
     LET r == v.rules[i] IN
     /\ r.down.kind # "none" \/ r.drop \/ r.rate >= 1
     /\ r.down.kind = "det" => r.down.rate \in DetRates
@@ -544,8 +543,8 @@ DsTriples ==
 DsTripleTraces == {[spans |-> << [f |-> fv, g |-> S("ab")] >>, root |-> 1, hb |-> h]
                       : fv \in {S("a"), S("b"), S("ab")}, h \in (IF Big THEN {1, 5} ELSE {5})}
 DsPairVecs ==
-  {[rules |-> <<r1, r2>>, trace |-> tr] : sc \in (IF Big THEN {"", "span"} ELSE {""}),
-                                           r1 \in DsRules(sc), r2 \in DsRules(sc), tr \in DsTraces}
+  UNION {{[rules |-> <<r1, r2>>, trace |-> tr] : r1 \in DsRules(sc), r2 \in DsRules(sc), tr \in DsTraces}
+         : sc \in (IF Big THEN {"", "span"} ELSE {""})}
 DsTripleVecs == {[rules |-> rs, trace |-> tr] : rs \in DsTriples, tr \in DsTripleTraces}
 
 Vecs == CASE Mode = "single" -> SingleVecs
@@ -623,7 +622,7 @@ FirstMatch ==
 \* C08: drop / downstream / SampleRate
 Decision ==
   (Evaluated /\ Ideal /\ out.rule > 0) =>
-     LET r == vec.rules[out.rule] IN
+     LET r == vec.rules[out.rule]
          ds == r.down.kind # "none" IN
      /\ (r.down = Dyn(1, <<"f">>)) => out.class = "keep" /\ out.rate = 1
      /\ (~ds /\ r.drop) => out.class = "drop"
@@ -655,7 +654,7 @@ OwnSampler ==
      \A j \in 1 .. Len(vec.rules) :
         /\ \A nm \in {"", "n", "#"} : EvalVec([vec EXCEPT !.rules[j].name = nm], FALSE) = o
         /\ \A d \in ProbeDowns :
-             LET v2 == [vec EXCEPT !.rules[j].down = d, !.rules[j].rate = IF d = NoDown /\ ~@.drop /\ @.rate = 0 THEN 1 ELSE @.rate]
+             LET v2 == [vec EXCEPT !.rules[j].down = d]
                  o2 == EvalVec(v2, FALSE)
              IN o2.rule = o.rule /\ (j # o.rule => o2 = o)
 
